@@ -237,6 +237,12 @@ def reduce_bool(I, fr, a, kind, axis=None, keepdims=False):
 
 def norm(I, fr, x, axis=None, keepdims=False, ord=None):
     x = unwrap(x)
+    if ord in (1, float('inf')) and axis is None and is_sym(x):
+        vals = [abs(v) if isinstance(v, S) else abs(v) for v in to_obj(np.asarray(x)).reshape(-1)]
+        acc = vals[0]
+        for v in vals[1:]:
+            acc = (acc + v) if ord == 1 else core.s_if(core.S.lift(v) >= core.S.lift(acc), v, acc)
+        return acc
     if ord not in (None, 2):
         raise Unsupported('norm with ord=%r' % (ord,))
     if not is_sym(x):
@@ -322,7 +328,7 @@ class ObjNpModule(object):
         if name == 'linalg':
             return self.linalg
         if name in ('ndarray', 'dtype', 'float64', 'float32', 'int64', 'int32', 'integer', 'floating', 'complexfloating', 'number', 'generic', 'bool_', 'isscalar', 'iinfo', 'finfo',
-                    'issubdtype', 'result_type', 'can_cast', 'errstate'):
+                    'issubdtype', 'issubsctype', 'result_type', 'can_cast', 'errstate', 'complexfloating', 'inexact'):
             return self.fallback.pv_getattr(I, fr, name)
         return ObjFn(self, name)
 
@@ -355,6 +361,25 @@ class ObjNpModule(object):
                 r = np.empty(shape, dtype=object)
                 r[...] = fill
                 return ONd(r)
+            if name == 'fromiter':
+                items = list(I.iterate(args[0], fr))
+                cnt = uk.get('count', -1)
+                if cnt not in (-1, None) and int(cnt) != len(items):
+                    raise ip.PyRaise(I.make_exc('ValueError', 'iterator too short / too long for count'))
+                if any(isinstance(v, (S, core.C)) for v in items):
+                    r = np.empty(len(items), dtype=object)
+                    for i_, v in enumerate(items):
+                        r[i_] = v
+                    return ONd(r)
+                return ONd(np.array(items, dtype=_npdtype(uk.get('dtype', ua[1] if len(ua) > 1 else None))))
+            if name == 'vdot':
+                a_, b_ = [np.asarray(x, dtype=object).reshape(-1) for x in ua[:2]]
+                if a_.shape != b_.shape:
+                    raise ip.PyRaise(I.make_exc('ValueError', 'shapes not aligned'))
+                acc = 0
+                for x, y in zip(a_, b_):
+                    acc = acc + (x.conjugate() if hasattr(x, 'conjugate') else x) * y
+                return acc
             if name == 'eye':
                 return ONd(np.eye(*ua, **{k: v for k, v in uk.items() if k != 'dtype'}))
             if name in ('cos', 'sin', 'sqrt', 'arccos', 'abs', 'absolute', 'sign', 'tan', 'arctan2', 'square', 'negative', 'ceil', 'floor', 'around', 'round', 'rint'):
